@@ -179,7 +179,8 @@ def apply_png_predictor(
     # number of bytes per complete pixel, rounding up to one
     bpp = max(1, colors * bitspercomponent // 8)
     buf = []
-    line_above = list(b"\x00" * nbytes)
+    # a row cannot be longer than the data, whatever `columns' says
+    line_above = list(b"\x00" * min(nbytes, len(data)))
     for scanline_i in range(0, len(data), nbytes + 1):
         filter_type = data[scanline_i]
         line_encoded = data[scanline_i + 1 : scanline_i + 1 + nbytes]
